@@ -142,6 +142,16 @@ MUTS = [
     ('SJ2', 'change', 'C14', T, "        if id_ % 1000 == 0:\n            return DelayedReplicationDescriptor(id_)", "        if id_ % 100 == 0:\n            return DelayedReplicationDescriptor(id_)"),
     ('SJ3', 'change', 'C14', T, "        elif id_ >= 100000:\n            descriptor = r.lookup(id_)\n            if isinstance", "        elif id_ >= 110000:\n            descriptor = r.lookup(id_)\n            if isinstance"),
     ('SJ4', 'preserve', 'C14', T, "        if id_ >= 300000:\n            descriptors.append(d.lookup(id_))", "        if 300000 <= id_:\n            descriptors.append(d.lookup(id_))"),
+    # tables.py _descriptors_from_ids_iter, the whole builder (final round)
+    ('SK1', 'change', 'C14', T, "g = generate_quiet(range(descriptor.n_items), next_id)", "g = generate_quiet(range(descriptor.n_items + 1), next_id)"),
+    ('SK2', 'change', 'C14', T, "            if isinstance(descriptor, DelayedReplicationDescriptor):\n                descriptor.factor = b.lookup(next_id())\n\n            g = generate_quiet(range(descriptor.n_items), next_id)\n            # TODO: check whether the actual number of members equals to n_items\n            descriptor.members = _descriptors_from_ids_iter(b, c, r, d, functools.partial(next, g))\n", "            g = generate_quiet(range(descriptor.n_items), next_id)\n            # TODO: check whether the actual number of members equals to n_items\n            descriptor.members = _descriptors_from_ids_iter(b, c, r, d, functools.partial(next, g))\n\n            if isinstance(descriptor, DelayedReplicationDescriptor):\n                descriptor.factor = b.lookup(next_id())\n"),
+    ('SK3', 'change', 'C14', T, "descriptor.members = _descriptors_from_ids_iter(b, c, r, d, functools.partial(next, g))", "descriptor.members = []"),
+    ('SK4', 'change', 'C14', T, "            descriptors.append(b.lookup(id_))\n\n    return descriptors", "            descriptors.append(c.lookup(id_))\n\n    return descriptors"),
+    ('SK5', 'change', 'C14', T, "        elif id_ >= 200000:\n            descriptors.append(c.lookup(id_))", "        elif id_ >= 200000:\n            descriptors.append(d.lookup(id_))"),
+    ('SK6', 'change', 'C14', T, "        if id_ >= 300000:\n            descriptors.append(d.lookup(id_))", "        if id_ >= 300000:\n            descriptors.append(b.lookup(id_))"),
+    ('SK7', 'change', 'C14', T, "        except StopIteration:\n            break\n        if id_ >= 300000:", "        except StopIteration:\n            return []\n        if id_ >= 300000:"),
+    ('SK8', 'preserve', 'C14', T, "        if id_ >= 300000:\n            descriptors.append(d.lookup(id_))", "        if 300000 <= id_:\n            descriptors.append(d.lookup(id_))"),
+    ('SK9', 'preserve', 'C14', T, "            # TODO: check whether the actual number of members equals to n_items\n", ""),
     # ---- stage D: the whole NodePathParser of dataquery.py (stateful class, C15_src_parse_eq) ----------------
     ('D1', 'change', 'C15', Q, "                if self.current_state == STATE_START_PARSING:\n                    self.current_state = STATE_START_SUBSET\n",
      "                if True:\n                    self.current_state = STATE_START_SUBSET\n"),
